@@ -8,9 +8,8 @@ package main
 // further pass after at most 5 changing passes, no state may repeat before
 // that (oscillation), no file may grow beyond start + passes*constant; on the
 // final tree -f must print no AUTOFIX line and the default run no fix hint.
-// Unit part: the executable fixer models of coq/Model/Settle.v against the
-// real fix sites is NOT attempted (the fix sites are only run as whole runs);
-// the oracle is used to cross-check the settle models on the real files.
+// Unit part (c16_unit.go): two fixer models of coq/Model/Settle.v against the
+// real binary on one-file experiments.
 
 import (
 	"fmt"
@@ -315,6 +314,11 @@ func runC16(ctx *Ctx) *Result {
 	if ctx.Tier == "thorough" {
 		ntrees = 3000
 	}
+	nunit := 200
+	if ctx.Tier == "thorough" {
+		nunit = 4000
+	}
+	c16Unit(ctx, res, rng.Fork(), nunit)
 	c16WholeRun(ctx, res, rng.Fork(), ntrees)
 	c16Floors(res, ntrees)
 	return res
@@ -362,6 +366,8 @@ func replayC16(ctx *Ctx, rep map[string]any) *Result {
 	switch rep["kind"] {
 	case "whole":
 		c16ReplayWhole(ctx, res, rep)
+	case "unit":
+		c16ReplayUnit(ctx, res, rep)
 	}
 	return res
 }
